@@ -86,7 +86,8 @@ impl Splines {
 
                 color_xyb[0] += corr_x * color_xyb[1];
                 color_xyb[2] += corr_b * color_xyb[1];
-                log2_ceil(1u64 + color_xyb.into_iter().max().unwrap()) as u64
+                // A spline without colour still costs work proportional to its length.
+                (log2_ceil(1u64 + color_xyb.into_iter().max().unwrap()) as u64).max(1)
             };
 
             let mut width_estimate = 0u64;
